@@ -144,6 +144,10 @@ def render(doc, xhtml=False) -> str:
         return ('<?xml version="1.0" encoding="utf-8"?>\n<html xmlns="http://www.w3.org/1999/xhtml"><head>' + head + "</head><body>" + body + "</body></html>")
     if shell == "full":
         return "<!DOCTYPE html>\n<html lang=\"en\"><head>" + head + "</head>\n<body>\n" + body + "</body></html>\n"
+    if shell == "office":
+        # what Outlook / Word write: no doctype, a long conditional comment with settings XML in front of <html>
+        lead = "<!--[if gte mso 9]><xml><o:OfficeDocumentSettings>" + "<o:AllowPNG/><o:PixelsPerInch>96</o:PixelsPerInch><o:Note>ZXOFF01 settings</o:Note>" * 30 + "</o:OfficeDocumentSettings></xml><![endif]-->\n"
+        return lead + "<html xmlns:o=\"urn:schemas-microsoft-com:office:office\"><head>" + head + "</head>\n<body>\n" + body + "</body></html>\n"
     if shell == "nobody":
         return "<!DOCTYPE html>\n" + body
     return body  # fragment
@@ -310,7 +314,7 @@ def docs(draw, max_nodes=7, rich=True):
     # make sure something visible follows the last removable element in most documents
     if draw(st.integers(0, 4)) > 0:
         nodes.append({"k": "blk", "tag": "p", "inl": [{"k": "t", "tok": tok("B"), "ent": ""}]})
-    doc = {"shell": draw(st.sampled_from(["full", "full", "full", "fragment", "nobody"])), "nodes": nodes, "title": tok("M"),
+    doc = {"shell": draw(st.sampled_from(["full", "full", "full", "fragment", "nobody", "office"])), "nodes": nodes, "title": tok("M"),
            "head_tok": tok("X") if draw(st.booleans()) else None, "trailing": None}
     if doc["shell"] != "full" and draw(st.integers(0, 2)) == 0:
         doc["trailing"] = [{"k": "t", "tok": tok("B"), "ent": draw(st.sampled_from(["", " AT&T", " &amp; more", " a&b"]))}]
